@@ -59,8 +59,9 @@ def check(pid, tier, args):
     jobs = []
     for s in s2 + s3:
         jobs.append(("gated", s, [race_bin, "-scheds", ";".join("%s=%s" % (t, s) for t in TABLES), "-file", img]))
-    ung = [(2, 1), (2, 2), (8, 2), (8, 16), (64, 1), (64, 16)] if tier == "quick" else \
-          [(n, p) for n in (2, 3, 8, 64) for p in (1, 2, 4, 16)]
+    # GOMAXPROCS includes values that do not divide the table sizes (3, 6)
+    ung = [(2, 1), (2, 2), (8, 2), (8, 16), (64, 1), (64, 16), (2, 3), (8, 6)] if tier == "quick" else \
+          [(n, p) for n in (2, 3, 8, 64) for p in (1, 2, 3, 4, 6, 16)]
     reps = 2 if tier == "quick" else 40
     for (n, p) in ung:
         for rep in range(reps):
